@@ -110,6 +110,7 @@ def parseInstD (s : String) : Option Inst :=
   match s.splitOn ":" with
   | [r, k, as] => go r k as (some .none) (some [])
   | [r, k, as, x] => if x.startsWith "M" then go r k as (some .none) (parseMdD x) else go r k as (parseExtD x) (some [])
+  | [r, k, as, x, m] => go r k as (parseExtD x) (parseMdD m)
   | _ => none
 
 def parseBlockD (s : String) : Option Block :=
@@ -183,10 +184,7 @@ def hasInfix (p : Bytes) : Bytes → Bool
 def textRisky (ls : List Bytes) : Bool :=
   ls.any (hasInfix [61, 32, 99, 97, 108, 108, 32, 118, 111, 105, 100, 32]) ||
   -- a case of a switch whose value is a global (`i8* @g, label %b`: a constant to the real parser; the cases of the fragment are literal constants)
-  ls.any (fun l => (TyParse.stripPrefix [9, 9] l).isSome && l.contains 64 && hasInfix sCommaLabel l) ||
-  -- metadata attachments at the end of a CONTINUATION line (`], !dbg !0`, `to label %a unwind label %b, !dbg !0`, `catch i8* null, !dbg !0`): where a
-  -- switch / invoke / landingpad carries them; the fragment has attachments on one-line instructions only
-  ls.any (fun l => ((TyParse.stripPrefix [9, 9] l).isSome || (TyParse.stripPrefix [9, 93] l).isSome) && hasInfix [44, 32, 33] l)
+  ls.any (fun l => (TyParse.stripPrefix [9, 9] l).isSome && l.contains 64 && hasInfix sCommaLabel l)
 
 def core3Ops (op : String) (a : List String) : Option String :=
   match op, a with
